@@ -518,6 +518,8 @@ def to_model(data_file: typing.IO, _config = None, progress_callback=lambda _: N
 
       current_p.set_region(_get_or_make_region(doc, cue_params[3:]))
 
+      subtitle_text = ""
+
       state = _State.TEXT
 
       continue
